@@ -5,7 +5,7 @@ from props._generic import run_property, replay_with_driver
 
 LEVEL = "other"
 KEYS = ["GPR._eval_gpr", "GPR.eval", "Reaction.functional@getter", "Gene.functional@setter", "Gene.knock_out", "Reaction.knock_out",
-        "Reaction.bounds@setter"]
+        "Reaction.bounds@setter", "knock_out_model_genes"]
 
 
 def run(rep):
@@ -15,9 +15,18 @@ def run(rep):
         "(functional = sem(rule, ids of the reaction's non-functional genes), True without a model), and Gene.knock_out is proved, "
         "with a loop invariant over the gene's reactions in any iteration order, to mark the gene non-functional and to set bounds "
         "(0,0) on exactly those of its reactions whose rule is then false, leaving every other reaction and gene untouched; "
-        "Reaction.knock_out zeroes exactly its own bounds. knock_out_model_genes and the any-order/together lemma are not proved: "
-        "bounded driver (exhaustive rule trees x gene subsets x orders x entry points against an independent truth-table evaluator)."),
-        trusted=["set comprehension / any / all semantics as axiomatised", "rule trees are finite and acyclic (well-formedness precondition)"])
+        "Reaction.knock_out zeroes exactly its own bounds. knock_out_model_genes (the entry point for SETS of genes) is proved with a "
+        "loop invariant over the resolved gene list: afterwards exactly the listed genes have become non-functional and a reaction has "
+        "bounds (0,0) exactly when it belongs to a listed gene and its rule is false with all its non-functional genes absent (every "
+        "other reaction keeps its bounds), and the returned list contains exactly those reactions - a statement about the SET of "
+        "listed genes, hence the same for every order and for one call or several. The proof uses the cross-reference invariant "
+        "(g in genes(r) <=> r in reactions(g), C02) as precondition and the monotonicity of the and/or semantics (more absent genes "
+        "never turn a rule true), proved by structural induction whose step is the obligation sem-monotone/induction-step. "
+        "model.genes.get_by_any is an assumed contract; _gene_deletion / delete_model_genes and the composition with contexts are "
+        "not proved: bounded driver (exhaustive rule trees x gene subsets x orders x entry points against an independent truth-table "
+        "evaluator)."),
+        lemmas=C.mono_lemmas,
+        trusted=["set comprehension / any / all semantics as axiomatised", "DictList.get_by_any returns a new list of non-None members (assumed contract)", "rule trees are finite and acyclic (well-formedness precondition)"])
 
 
 def replay(payload):
